@@ -2441,9 +2441,52 @@ func ruleEntryAdopted(r *Run) {
 				}
 			}
 		}
+		// the entry, or a load of the cell it was put into (a variable captured by a closure
+		// lives in a cell)
+		var cells []ssa.Value
+		if refs := entry.Referrers(); refs != nil {
+			for _, u := range *refs {
+				if st, ok := u.(*ssa.Store); ok && st.Val == entry {
+					if al, ok := st.Addr.(*ssa.Alloc); ok && len(storesTo(al)) == 1 {
+						cells = append(cells, al)
+					}
+				}
+			}
+		}
+		isEntry := func(v ssa.Value) bool {
+			if v == entry {
+				return true
+			}
+			if ld, ok := v.(*ssa.UnOp); ok && ld.Op == token.MUL {
+				for _, c := range cells {
+					if ld.X == c {
+						return true
+					}
+				}
+			}
+			return false
+		}
 		kept := func(i ssa.Instruction) bool {
-			mu, ok := i.(*ssa.MapUpdate)
-			return ok && mu.Value == entry
+			if mu, ok := i.(*ssa.MapUpdate); ok {
+				return isEntry(mu.Value)
+			}
+			// a method or function of the module that puts the parameter it is handed into a
+			// map (`subDict.Replace(id, entry)`)
+			if c, ok := i.(*ssa.Call); ok {
+				if h := c.Call.StaticCallee(); h != nil && inModule(h) {
+					for pi, a := range c.Call.Args {
+						if !isEntry(a) || pi >= len(h.Params) {
+							continue
+						}
+						for _, hi := range allInstrs(h) {
+							if mu, ok := hi.(*ssa.MapUpdate); ok && mu.Value == ssa.Value(h.Params[pi]) {
+								return true
+							}
+						}
+					}
+				}
+			}
+			return false
 		}
 		started := func(i ssa.Instruction) bool {
 			g, ok := i.(*ssa.Go)
@@ -2451,7 +2494,43 @@ func ruleEntryAdopted(r *Run) {
 				return false
 			}
 			c := g.Common()
-			return c.StaticCallee() != nil && origin(c.StaticCallee()) == origin(listen) && len(c.Args) > 0 && c.Args[0] == entry
+			if c.StaticCallee() != nil && origin(c.StaticCallee()) == origin(listen) && len(c.Args) > 0 && isEntry(c.Args[0]) {
+				return true
+			}
+			// `go func() { entry.Listen(conn) }()`: a literal that calls Listen on the captured entry
+			if mc, ok := c.Value.(*ssa.MakeClosure); ok {
+				lit, _ := mc.Fn.(*ssa.Function)
+				for bi, b := range mc.Bindings {
+					isCell := false
+					for _, cl := range cells {
+						if b == cl {
+							isCell = true
+						}
+					}
+					if lit == nil || bi >= len(lit.FreeVars) || !(isCell || isEntry(b)) {
+						continue
+					}
+					fv := lit.FreeVars[bi]
+					for _, li := range allInstrs(lit) {
+						lc, ok := li.(ssa.CallInstruction)
+						if !ok {
+							continue
+						}
+						cc := lc.Common()
+						if cc.StaticCallee() == nil || origin(cc.StaticCallee()) != origin(listen) || len(cc.Args) == 0 {
+							continue
+						}
+						a := cc.Args[0]
+						if a == ssa.Value(fv) {
+							return true
+						}
+						if ld, ok := a.(*ssa.UnOp); ok && ld.Op == token.MUL && ld.X == ssa.Value(fv) {
+							return true
+						}
+					}
+				}
+			}
+			return false
 		}
 		for _, what := range []struct {
 			name string
